@@ -362,5 +362,22 @@ def wfAlong (ops : FloatOps F) : Facts F → List (SRule F) → Bool
       | (f', none) => wfAlong ops f' rs
     else wfAlong ops f rs)
 
+/-- a whole `execute` call as the documentation describes it: the documented pass is repeated on the
+CURRENT facts until a pass fires nothing (or fails), at most `max_cycles` times -/
+def cycles (ops : FloatOps F) : Nat → Facts F → List (SRule F) → PassResult F
+  | 0, f, _ => { firings := [], final := f, evaluated := 0, fired := 0, error := none }
+  | n + 1, f, rs =>
+    let p := pass ops f rs
+    if p.error.isSome || p.fired == 0 then p
+    else p.andThen (cycles ops n p.final rs)
+
+/-- every condition is in the domain at every moment of every cycle -/
+def wfCycles (ops : FloatOps F) : Nat → Facts F → List (SRule F) → Bool
+  | 0, _, _ => true
+  | n + 1, f, rs =>
+    wfAlong ops f rs &&
+    (let p := pass ops f rs
+     if p.error.isSome || p.fired == 0 then true else wfCycles ops n p.final rs)
+
 end Spec
 end C01
